@@ -87,9 +87,13 @@ def vals_close(a_hex, b_hex, scale):
     return abs(a - b) <= 1e-9 * max(abs(a), abs(b)) + 1e-10 * scale
 
 
+LAST_MISMATCH_COMPONENTS = set()
+
+
 def correspondence(res, cases, lines, go, model, what):
     """Go vs model on every output of every case. Returns number of mismatching cases."""
     mism = 0
+    LAST_MISMATCH_COMPONENTS.clear()
     for i, c in enumerate(cases):
         cid = lines[i].split(' ')[0]
         g, m = parse_ind(go.get(cid, 'missing')), parse_ind(model.get(cid, 'missing'))
@@ -105,6 +109,7 @@ def correspondence(res, cases, lines, go, model, what):
         diff, nv, inex = vlib.cmp_streams(g['outs'], m['outs'], scale=scale * 1e-1)
         if diff is not None:
             mism += 1
+            LAST_MISMATCH_COMPONENTS.add(c[0])
             res.violation({'broken': 'correspondence', 'name': 'IND ' + c[0], 'config': {'ns': c[1], 'fs': c[2]},
                            'regime': c[4], 'first_difference': diff, 'line': lines[i][:4000]}, no_failing_input=True)
     return mism
@@ -578,17 +583,51 @@ def check_c18(res, tier, replay):
             cp, cv = wfactors[bi]
             derived.append((bi, cp, cv, (c[0], c[1], c[2], scale_inputs(c[0], c[3], cp, cv), c[4])))
             continue
-        choices = [(2.0 ** rng.choice([-3, -1, 1, 2, 5]), 1.0)]
+        # exponents from small to extreme: absolute thresholds hidden in the code show up far from scale 1
+        pe = lambda: rng.choice([-24, -20, -17, -10, -3, -1, 1, 2, 5, 12, 20])
+        ve = lambda: rng.choice([-30, -24, -20, -10, -4, -1, 1, 3, 10, 20])
+        choices = [(2.0 ** pe(), 1.0), (2.0 ** pe(), 1.0)]
         if 'v' in kinds:
-            choices.append((1.0, 2.0 ** rng.choice([-4, -1, 1, 3])))
-            choices.append((2.0 ** rng.choice([-2, 1, 4]), 2.0 ** rng.choice([-2, 2])))
+            choices.append((1.0, 2.0 ** ve()))
+            choices.append((1.0, 2.0 ** ve()))
+            choices.append((2.0 ** pe(), 2.0 ** ve()))
         if kinds == 'v':   # Pvo: the only input is a volume
-            choices = [(1.0, 2.0 ** rng.choice([-4, -1, 1, 3]))]
+            choices = [(1.0, 2.0 ** ve()), (1.0, 2.0 ** ve())]
         for cp, cv in choices:
             derived.append((bi, cp, cv, (c[0], c[1], c[2], scale_inputs(c[0], c[3], cp, cv), c[4])))
     allcases = base + [d[3] for d in derived]
     lines, go, model = run_both(allcases)
     mism = correspondence(res, allcases, lines, go, model, 'C18')
+    if LAST_MISMATCH_COMPONENTS and not replay:
+        # the model no longer describes these components: widen the search for a failing input on the real code
+        nb = len(base)
+        extra_base = gen_cases(rng, tier, names=sorted(LAST_MISMATCH_COMPONENTS), per=60)
+        extra = []
+        for c in extra_base:
+            if not c[3] or len(c[3][0]) == 0:
+                continue
+            for cp, cv in [(2.0 ** -24, 1.0), (2.0 ** -17, 1.0), (2.0 ** 20, 1.0), (1.0, 2.0 ** -30), (1.0, 2.0 ** 20)]:
+                if CAT[c[0]][0] == 'v' and cv == 1.0:
+                    continue
+                if 'v' not in CAT[c[0]][0] and cp == 1.0:
+                    continue
+                extra.append((c, cp, cv, (c[0], c[1], c[2], scale_inputs(c[0], c[3], cp, cv), c[4])))
+        l2 = ['e%d %s' % (i, ind_line(*cc[:4])) for i, cc in enumerate([e[0] for e in extra] + [e[3] for e in extra])]
+        go2 = vlib.run_go(l2)
+        off = len(extra)
+        for i, (c0, cp, cv, c1) in enumerate(extra):
+            base.append(c0)
+            lines.append('x%d' % i)          # placeholder ids resolved through go below
+            go['x%d' % i] = go2.get('e%d' % i, 'missing')
+        lines_d = []
+        for i, (c0, cp, cv, c1) in enumerate(extra):
+            derived.append((nb + i, cp, cv, c1))
+        # rebuild the combined index: base lines first, then derived lines
+        base_lines = [lines[k] for k in range(nb)] + ['x%d' % i for i in range(len(extra))]
+        der_lines = lines[nb:nb + (len(derived) - len(extra))] + ['y%d' % i for i in range(len(extra))]
+        for i in range(len(extra)):
+            go['y%d' % i] = go2.get('e%d' % (off + i), 'missing')
+        lines = base_lines + der_lines
     checked = exempt = bad = inexact = 0
     cells = set()
     known_seen = collections.defaultdict(int)
